@@ -408,6 +408,8 @@ def inline_helpers(cls, fn, keep=(), depth=3, module=None):
             if shape == 'expr':
                 return [ast.Expr(value=value, lineno=ln, col_offset=0)] if value is not None else []
             if shape == 'assign':
+                if isinstance(value, ast.Name) and len(target) == 1 and isinstance(target[0], ast.Name) and target[0].id == value.id:
+                    return []                # x = x: the helper's local already carries the caller's name
                 return [ast.Assign(targets=[copy.deepcopy(t_) for t_ in target], value=value if value is not None else ast.Constant(value=None), lineno=ln, col_offset=0)]
             return [ast.Return(value=value, lineno=ln, col_offset=0)]
         if isinstance(last, ast.Return):
